@@ -481,6 +481,16 @@ class DirectSolver(LinearSolver):
                 raise RuntimeError("Direct solver not implemented for matrix type %s"
                                    " in %s." % (type(matrix), system.msginfo))
 
+            # AssembledJacobians are unscaled, but the caller (Broyden) applies the inverse to
+            # the scaled outputs and residuals: return So^-1 J^-1 Sr.
+            scaling = self._get_vec_scaling() if matrix is not None else None
+            if scaling is not None:
+                so, sr = scaling
+                if scipy.sparse.issparse(inv_jac):
+                    inv_jac = scipy.sparse.diags(1.0 / so) @ inv_jac @ scipy.sparse.diags(sr)
+                else:
+                    inv_jac = inv_jac * sr[np.newaxis, :] / so[:, np.newaxis]
+
         else:
             if nproc > 1:
                 raise RuntimeError("BroydenSolvers without an assembled jacobian are not supported "
